@@ -36,6 +36,18 @@ def canon(x, strict):
     return x
 
 
+# Names imported in one file and used WITHOUT an import in other files (defined locally there): per-file state of an analyser
+# (import tables, class registries, function tables keyed by name) must not survive from one file to the next. The sharing files
+# sort before and after the users so that either analysis order exposes a leak.
+SHARED = {
+    "a_client.py": "from netlib import connect, Pool\nimport helperlib as hl\nfrom typing import Optional\n\n\nclass Client:\n    def __init__(self):\n"
+                   "        self.conn = connect()\n        self.pool = Pool()\n\n    def go(self, n: Optional[int]):\n        return hl.run(self.conn, n)\n",
+    "b_worker.py": "def connect():\n    return 1\n\n\nclass Pool:\n    pass\n\n\nclass Job:\n    pass\n\n\nclass Worker:\n    def __init__(self):\n"
+                   "        self.conn = connect()\n        self.pool = Pool()\n        self.job = Job()\n\n    def go(self, n):\n        self.x = Optional\n        return hl.run(self.conn, n)\n\n\n"
+                   "class Client:\n    def __init__(self):\n        self.a = 0\n        self.b = 0\n\n    def one(self):\n        return self.a\n\n    def two(self):\n        return self.b\n",
+    "z_client.py": "from netlib import Job\nimport otherlib as hl\n\n\nclass Late:\n    def __init__(self):\n        self.job = Job()\n        self.h = hl.make()\n",
+}
+
 IMPORTS = {"alpha.py": "import beta\nimport gamma\n", "beta.py": "import gamma\n", "gamma.py": "import alpha\n", "delta.py": "import os\n"}
 
 
@@ -48,6 +60,7 @@ def make_project(root, name, rng, n_mods=3):
         files["gen%d.py" % i] = "\n".join(m["lines"]).replace("from rt import *", "import os") + "\n"
     files["classes.py"] = CLASS_FILE
     files["ledger.py"] = CLASS_FILE.replace("Account", "Ledger")
+    files.update(SHARED)
     for fn, head in IMPORTS.items():
         files[fn] = head + "\n\ndef use_%s(x):\n    if x:\n        return 1\n    return 0\n" % fn[:-3]
     for fn, src in files.items():
@@ -129,9 +142,19 @@ def main(tier):
             k = rng.randint(2, len(files) - 1)
             subsets.append(rng.sample(files, k))
         single = {}
-        for sub in subsets:
+
+        def run_subset(item):
+            i, sub = item
+            dd = os.path.join(root, "p%d_sub%02d" % (pi, i))     # own copy: analyze() rewrites .pyscn/ in its directory
+            shutil.copytree(d, dd, ignore=shutil.ignore_patterns(".pyscn"))
+            r = analyze(dd, ["--select", "complexity,deadcode,cbo,lcom"], targets=sub)
+            shutil.rmtree(dd, ignore_errors=True)
+            return r
+        from concurrent.futures import ThreadPoolExecutor
+        with ThreadPoolExecutor(max_workers=6) as ex:
+            sub_results = list(ex.map(run_subset, enumerate(subsets)))
+        for sub, (rc, data, err) in zip(subsets, sub_results):
             stats["subsets"] += 1
-            rc, data, err = analyze(d, ["--select", "complexity,deadcode,cbo,lcom"], targets=sub)
             rows = per_file_rows(data)
             if len(sub) == 1:
                 single[sub[0]] = rows.get(sub[0], {})
